@@ -85,6 +85,7 @@ static void vf_trace_step(int kind, const volatile void* addr, uintptr_t oldv, u
 typedef struct { int t; int heapid; int give[64]; int ngive; int own_allocs; size_t own_lo, own_hi; int exit_with_live; int collect; } role_t;
 static role_t roles[VF_MAXT];
 static int snapshots_on = 0;
+static int exit_aligned = 0;
 static size_t blk_lo = 8000, blk_hi = 8192;
 
 static void visit_expect_clean(int hidx) {
@@ -207,7 +208,14 @@ static void* exiter_main(void* arg) {
   vf_logf("{\"e\":\"tstart\",\"t\":%d,\"h\":%d}", r->t, r->heapid); vf_log_line_end();
   vf_point();
   int n = 3 + (int)vf_randn(6);
-  for (int i = 0; i < n; i++) { op_alloc_ex(vf_randn(3) ? A_malloc : A_zalloc, r->own_lo + (size_t)vf_randn(r->own_hi - r->own_lo + 1), 0, 0, 0, 0); vf_point(); }
+  for (int i = 0; i < n; i++) {
+    if (exit_aligned && vf_randn(3) != 0) {   /* over-aligned blocks: interior pointers that must stay valid after this thread is gone (C03) */
+      static const size_t als[] = {32, 64, 256, 256, 1024, 4096};
+      op_alloc_ex(vf_randn(2) ? A_malloc_aligned : A_zalloc_aligned, 20 + (size_t)vf_randn(400), als[vf_randn(6)], 0, 0, 0);
+    }
+    else op_alloc_ex(vf_randn(3) ? A_malloc : A_zalloc, r->own_lo + (size_t)vf_randn(r->own_hi - r->own_lo + 1), 0, 0, 0, 0);
+    vf_point();
+  }
   /* free some of its own blocks and some foreign ones, leave the rest behind */
   for (int i = 0; i < 4; i++) { int s = pick_live(); if (s >= 0 && vf_randn(2) == 0) op_free_slot(s, FR_free); vf_point(); }
   if (r->collect) do_collect((int)vf_randn(2));
@@ -225,9 +233,21 @@ static void prog_exit(int nthreads, int main_ops, size_t lo, size_t hi_) {
     else if (c < 8) { int s = pick_live(); if (s >= 0) op_free_slot(s, FR_free); }               /* may free into an abandoned segment */
     else if (c < 9) { do_collect((int)vf_randn(2)); }
     else { op_write(); }
+    if (exit_aligned && vf_randn(2)) {     /* the interior pointer is queried like any other pointer */
+      int s = pick_live();
+      if (s >= 0) { ret_t r; memset(&r, 0, sizeof(r)); slots[s].pin++; log_call_begin("usable_size", 0, slots[s].id, 0, 0, 0, 0, "ok", 0, 0); log_obs(-1, -1, 0); log_call_end();
+                    r.us = mi_usable_size(slots[s].p); vf_in_call = 0; slots[s].pin--; log_ret_begin("usable_size", &r); log_obs(-1, -1, 0); log_ret_end(); }
+    }
   }
   vf_wait_all();
   op_checkall();
+  if (exit_aligned) {   /* every block left behind: usable size unchanged, expand within it, then freed by the main thread */
+    for (int s = 0; s < MAXSLOTS; s++) if (slots[s].p) {
+      ret_t r; memset(&r, 0, sizeof(r)); log_call_begin("usable_size", 0, slots[s].id, 0, 0, 0, 0, "ok", 0, 0); log_obs(-1, -1, 0); log_call_end();
+      r.us = mi_usable_size(slots[s].p); vf_in_call = 0; log_ret_begin("usable_size", &r); log_obs(-1, -1, 0); log_ret_end();
+    }
+    for (int i = 0; i < 12; i++) op_alloc_ex(A_malloc_aligned, 20 + (size_t)vf_randn(400), 256, 0, 0, 0);   /* reuse of freed slots next to live neighbours */
+  }
   for (int s = 0; s < MAXSLOTS; s++) if (slots[s].p) op_free_slot(s, FR_free);
   do_collect(1);
   ev_quiesce(2);      /* born >= 2 semantics are not used here: only DirtyAllReleased / QuiesceNoLive apply meaningfully */
@@ -406,6 +426,7 @@ static int run_one(const char* out, const char* prog, uint64_t seed, int argc, c
   else if (!strcmp(prog, "pc")) prog_pc(1 + (int)vf_randn(2), 2400, blk_lo, blk_hi);
   else if (!strcmp(prog, "abvisit")) prog_abvisit(2 + (int)vf_randn(3));
   else if (!strcmp(prog, "arena")) prog_arena(2 + (int)vf_randn(2));
+  else if (!strcmp(prog, "exit-aligned")) { exit_aligned = 1; prog_exit(2 + (int)vf_randn(2), 14 + (int)vf_randn(10), 100, 400); }
   else if (!strcmp(prog, "exit")) prog_exit(2 + (int)vf_randn(2), 14 + (int)vf_randn(10), blk_lo, blk_hi);
   else { fprintf(stderr, "unknown program %s\n", prog); return 2; }
   vf_logf("{\"e\":\"end\",\"steps\":%ld,\"switches\":%ld,\"ophash\":%lu}", vf_step, vf_switches, vf_ophash % 1000000007ul); vf_log_line_end();
